@@ -131,7 +131,18 @@ func vfObserve(v map[string]any) (res map[string]any) {
 	// the wiring of cmd/corerad/main.go: the same configuration value then goes to BuildTasks (the tasks are not run)
 	_ = NewServer(NewContext(ll, mm, st)).BuildTasks(*cfg, h)
 
+	// "at any point in the daemon's life": the same registry and handler are asked before the interface comes up,
+	// again once it is up with one hardware address, and - the answers that are judged - after it has been
+	// re-initialised with another (what an earlier answer was must not matter)
+	early := func() {
+		_, _ = reg.Gather()
+		for _, path := range []string{"/_/api/interfaces", "/metrics"} {
+			h.ServeHTTP(httptest.NewRecorder(), httptest.NewRequest("GET", path, nil))
+		}
+	}
+	var rella []func()
 	if vfStr(v, "lifecycle", "up") == "up" {
+		early()
 		var ips []system.IP
 		for _, x := range vfList(sys, "addrs") {
 			m := x.(map[string]any)
@@ -160,7 +171,9 @@ func vfObserve(v map[string]any) (res map[string]any) {
 			for _, p := range ifi.Plugins {
 				switch p := p.(type) {
 				case *plugin.LLA:
-					_ = p.Prepare(&net.Interface{Name: ifi.Name, Index: idx + 1, HardwareAddr: hw})
+					_ = p.Prepare(&net.Interface{Name: ifi.Name, Index: idx + 1, HardwareAddr: net.HardwareAddr{2, 0, 0, 0, 7, byte(idx + 1)}})
+					lla, ifname, ifidx := p, ifi.Name, idx+1
+					rella = append(rella, func() { _ = lla.Prepare(&net.Interface{Name: ifname, Index: ifidx, HardwareAddr: hw}) })
 				case *plugin.Prefix:
 					p.TimeNow = func() time.Time { return now }
 					p.Addrs = func() ([]system.IP, error) {
@@ -188,6 +201,13 @@ func vfObserve(v map[string]any) (res map[string]any) {
 					}
 				}
 			}
+		}
+	}
+
+	if len(rella) > 0 {
+		early()
+		for _, f := range rella {
+			f()
 		}
 	}
 
